@@ -863,6 +863,51 @@ fn main() {
         }
     }
 
+    // ADM, directed: (a) headers that never complete (the wait times out) through one balancer peer, then - inside the
+    // limiter's window - connections whose EFFECTIVE address is that peer's own address (a header announcing no address,
+    // a header announcing exactly that address): nothing has been charged to it; (b) more address-less headers through
+    // one peer than the limit allows: they are charged to the peer's address like any other connection from it
+    if want("ADM") {
+        for i in 0..(2 * scale) {
+            let limit = 1 + (i % 3) as usize;
+            let cfg = Cfg { max: 10_000, expiry: 21_600, secret: None, timeout_s: 4, lim: Some((limit, 60)), proxy: Some((true, true)) };
+            let k = 2 + (i % 3) as u8;
+            let peer: SocketAddr = format!("127.0.0.{}:4100", k).parse().unwrap();
+            let other = rnd_src(&mut r, 8);
+            let mut conns = vec![];
+            let mut t = 60 + r.below(40);
+            let mut id = 1i64;
+            if i % 2 == 0 {
+                for _ in 0..(limit + 1) {
+                    let mut c = plain(id, k, t, Beh::Silent, None); id += 1;
+                    c.hdr = if r.chance(1, 2) { Hdr::None } else { normalize(mk_hdr(&mut r, 6, &other, 0), cfg.proxy) };
+                    if let Hdr::Full { .. } = c.hdr { c.hdr = Hdr::None; }
+                    conns.push(c); t += 120;
+                }
+                t += 4000 + 300;   // every header wait above has timed out
+                for kind in [2u32, 3, 0, 1] {
+                    if (kind < 2) && conns.iter().filter(|c| c.nat.is_some()).count() >= limit { break; }
+                    let mut c = plain(id, k, t, Beh::Status, nat_of(&Beh::Status, 0)); id += 1;
+                    c.hdr = mk_hdr(&mut r, kind, &peer, 0);
+                    c.eff_ip = peer.ip();
+                    conns.push(c); t += 250;
+                }
+                st.hit("ADM.directed=timed_out_headers_then_peer_address");
+            } else {
+                for j in 0..(limit + 3) {
+                    let mut c = plain(id, k, t, Beh::Status, nat_of(&Beh::Status, 0)); id += 1;
+                    c.hdr = mk_hdr(&mut r, 2 + (j % 2) as u32, &other, 0);
+                    conns.push(c); t += 250;
+                }
+                st.hit("ADM.directed=addressless_headers_over_the_limit");
+            }
+            let end = t + 4000 + 600;
+            let run = run_case(0, &cfg, &conns, None, end);
+            emit("ADM", 0, &cfg, &conns, None, end, &run);
+            ncase += 1;
+        }
+    }
+
     // ---------------------------------------------------------------- C16 STALL: k stalled clients, one probe
     if want("STALL") {
         let points = ["pre_header", "in_header", "mid_frame", "mid_login", "no_keepalive", "drip"];
